@@ -32,6 +32,7 @@ pub fn ty_text(t: &Ty, u: &Universe) -> String {
         Ty::NilOwn | Ty::NilOwnDec | Ty::NilOwnEnc => "crate::rt::OwnNil".into(),
         Ty::OptAlias => "crate::rt::OptU8".into(),
         Ty::BoxOpt(x) => format!("Box<Option<{}>>", ty_text(x, u)),
+        Ty::ParenOptBytes => "(Option<Vec<u8>>)".into(),
     }
 }
 
@@ -60,7 +61,7 @@ fn field_attrs(f: &Field, u: &Universe) -> String {
     if f.long_attr && !(f.b && must_be_b(&f.ty, u)) { parts.push(ix) } else { write!(s, "#[{}] ", ix).unwrap() }
     if let Some(t) = f.tag { parts.push(format!("tag({})", t)) }
     match f.ty {
-        Ty::BytesVec | Ty::BytesSlice | Ty::BytesArr4 | Ty::CowBytes => parts.push("with = \"minicbor::bytes\"".into()),
+        Ty::BytesVec | Ty::BytesSlice | Ty::BytesArr4 | Ty::CowBytes | Ty::ParenOptBytes => parts.push("with = \"minicbor::bytes\"".into()),
         Ty::NilWith => { parts.push("with = \"crate::rt::nil_u32\"".into()); parts.push("has_nil".into()) }
         Ty::NilFns => {
             // the order of the keys, and their distribution over several #[cbor(..)] attributes, must not matter
@@ -199,6 +200,7 @@ fn model_expr(t: &Ty, x: &str, u: &Universe) -> String {
         Ty::NilFns => format!("fr.text(&{}.0[..])", x),
         Ty::Param => format!("crate::rt::ParamModel::pmodel({}, fr)", x),
         Ty::BoxOpt(e) => format!("(match &**{} {{ None => vcore::Item::Null, Some(inner) => {} }})", x, model_expr(e, "inner", u)),
+        Ty::ParenOptBytes => format!("(match {} {{ None => vcore::Item::Null, Some(inner) => fr.bytes(&inner[..]) }})", x),
     }
 }
 
@@ -313,6 +315,7 @@ fn draw_stmts(fields: &[Field], u: &Universe) -> String {
         if f.skip { writeln!(s, "        let d{}: {} = crate::rt::Draw::draw(g, ar, &mut crate::rt::Presence::random());", i, t).unwrap() }
         else if f.ty == Ty::OptAlias && !f.optional { writeln!(s, "        let d{}: {} = crate::rt::draw_opt_alias(g);", i, t).unwrap() }
         else if matches!(f.ty, Ty::BoxOpt(_)) && !f.optional { writeln!(s, "        let d{}: {} = crate::rt::draw_box_opt(g, ar);", i, t).unwrap() }
+        else if f.ty == Ty::ParenOptBytes && !f.optional { writeln!(s, "        let d{}: {} = crate::rt::draw_plain_opt(g, ar);", i, t).unwrap() }
         else { writeln!(s, "        let d{}: {} = crate::rt::Draw::draw(g, ar, pm);", i, t).unwrap() }
     }
     s
